@@ -252,9 +252,9 @@ func (e *Engine) writeEvidence(path, prop string, rep *Report, evs []evObl, nd i
 		assumptions = append(assumptions, "abstraction: "+k)
 	}
 	cov := map[string]any{
-		"obligations":              len(evs),
-		"discharged":               nd + len(knownPrinted),
-		"discharged_by_solver":     nd,
+		"obligations":              len(evs) - len(knownPrinted),
+		"discharged":               nd,
+		"obligations_generated":    len(evs),
 		"known_findings":           knownPrinted,
 		"violations":               violations,
 		"undecided":                undecided,
@@ -272,7 +272,7 @@ func (e *Engine) writeEvidence(path, prop string, rep *Report, evs []evObl, nd i
 		"explanation":              "every obligation is one named verification condition generated from go/ssa of the current /repo tree and decided by an SMT solver; 'discharged' counts obligations answered unsat (known findings are listed separately and are NOT proofs)",
 	}
 	if len(knownPrinted) > 0 {
-		cov["discharged"] = nd
+		cov["known_findings_note"] = "obligations listed under known_findings FAIL on the real code (genuine defects recorded in /verif/KNOWN_FINDINGS); they are excluded from 'obligations' and are not proofs"
 	}
 	ev := map[string]any{
 		"property_id": prop,
